@@ -320,12 +320,30 @@ Proof. cbn [eval_coord grid_of]. destruct (r_X (c_r0 c)) as [l|l|l]; [reflexivit
 Lemma coord2_y (c : @ctx N T V F A) : eval_coord c (DCoordIf2 GY [IAll; I0] GY) = y_of false (r_Y (c_r0 c)).
 Proof. cbn [eval_coord grid_of]. destruct (r_Y (c_r0 c)) as [l|l|l]; [reflexivity|apply idx2_y|reflexivity]. Qed.
 
-(* the dataset the canonical description denotes, in the shape of assemble's inner expression *)
-Lemma eval_norm_canon (is3d : bool) (ks1 ks2 : fkey) (rs : results) (tws : list tower) n0 r0 l0' rest :
+(* the label vectors the two ways of attaching tower metadata stand for *)
+Definition labels_of (m : meta_d) : list N -> list tower -> option (list tower) :=
+  match m with MByName => labels_by_name eqbN | MByPosition => @labels_positional N V end.
+
+Lemma traverse_length {X Y : Type} (f : X -> option Y) (l : list X) (l' : list Y) :
+  traverse f l = Some l' -> List.length l' = List.length l.
+Proof. intros H. exact (proj1 (traverse_spec f l l' H)). Qed.
+
+Lemma meta_sized (m : meta_d) (f : tfield) (c : @ctx N T V F A) (rs : results) (tws : list tower) :
+  sized (List.length (c_names c)) (eval_series eqbN nanV E c rs tws (DMeta m f)) =
+  option_map (map (tsel f)) (labels_of m (c_names c) tws).
+Proof.
+  unfold sized, labels_of. destruct m; cbn [eval_series].
+  - unfold labels_by_name. destruct (traverse (fun nm => tower_by_name eqbN nm tws) (c_names c)) as [tl|] eqn:Et; [|reflexivity].
+    cbn [option_map]. rewrite map_length, (traverse_length _ _ _ Et), Nat.eqb_refl. reflexivity.
+  - unfold labels_positional. rewrite map_length. destruct (List.length tws =? List.length (c_names c)); reflexivity.
+Qed.
+
+(* the dataset the canonical description denotes, in the shape of assemble_gen's inner expression *)
+Lemma eval_norm_canon (is3d : bool) (m : meta_d) (ks1 ks2 : fkey) (rs : results) (tws : list tower) n0 r0 l0' rest :
   rs = (n0, r0 :: l0') :: rest ->
-  eval_norm eqbN str nanV zeroF E is3d (mkCtx (names rs) (r0 :: l0') r0) (canon_norm is3d ks1 ks2) rs tws =
+  eval_norm eqbN str nanV zeroF E is3d (mkCtx (names rs) (r0 :: l0') r0) (canon_norm is3d m ks1 ks2) rs tws =
   if existsb (fun nm => Nat.ltb (List.length (r0 :: l0')) (List.length (steps_of eqbN rs nm))) (names rs) then None
-  else match x_of is3d (r_X r0), y_of is3d (r_Y r0), zopt is3d (r_Z r0), labels_by_name eqbN (names rs) tws with
+  else match x_of is3d (r_X r0), y_of is3d (r_Y r0), zopt is3d (r_Z r0), labels_of m (names rs) tws with
        | Some x, Some y, Some z, Some tl =>
          Some (mkDs x y z (map (fun r => str (r_stamp r)) (r0 :: l0')) (names rs)
                     (data eqbN zeroF (@r_flx T V F A) rs (List.length (r0 :: l0')))
@@ -341,36 +359,40 @@ Proof.
   assert (Hl : steps_of eqbN rs n0 = r0 :: l0').
   { subst rs. unfold steps_of. cbn [assoc]. rewrite eqbN_refl. reflexivity. }
   set (l := r0 :: l0') in *.
+  pose proof (fun f => meta_sized m f (mkCtx (names rs) l r0) rs tws) as Hm. cbn [c_names] in Hm.
   unfold eval_norm, member.
   destruct is3d; cbn [canon_norm n_fp n_conc n_ustar n_mol n_ws n_wd n_lat n_lon n_zm n_x n_y n_z n_time n_tower n_lossy
                        fst snd block_dims]; rewrite !dims_eqb_refl.
   - rewrite !(eval_blocks_canon eqbN zeroF E eqbN_refl rs l r0 true).
     rewrite !(eval_met_canon eqbN nanV E eqbN_refl rs tws l r0 _ n0 (names rest) Hn Hl).
-    cbn [eval_coord grid_of c_r0 eval_labels c_l0 eval_tower_names eval_names eval_series c_names].
-    rewrite coord3_x, coord3_y, coord3_z. unfold zopt, labels_by_name.
+    cbn [eval_coord grid_of c_r0 eval_labels c_l0 eval_tower_names eval_names c_names].
+    rewrite coord3_x, coord3_y, coord3_z. unfold zopt.
+    destruct (x_of true (r_X r0)); destruct (y_of true (r_Y r0)); destruct (z_of (r_Z r0)); cbn [option_map];
+    rewrite ?Hm;
     destruct (existsb (fun nm => Nat.ltb (List.length l) (List.length (steps_of eqbN rs nm))) (names rs));
-    destruct (x_of true (r_X r0)); destruct (y_of true (r_Y r0)); destruct (z_of (r_Z r0));
-    destruct (traverse (fun nm => tower_by_name eqbN nm tws) (names rs)); reflexivity.
+    destruct (labels_of m (names rs) tws); reflexivity.
   - rewrite !(eval_blocks_canon eqbN zeroF E eqbN_refl rs l r0 false).
     rewrite !(eval_met_canon eqbN nanV E eqbN_refl rs tws l r0 _ n0 (names rest) Hn Hl).
     rewrite coord2_x, coord2_y.
-    cbn [c_r0 eval_labels c_l0 eval_tower_names eval_names eval_series c_names].
-    unfold zopt, labels_by_name.
+    cbn [c_r0 eval_labels c_l0 eval_tower_names eval_names c_names].
+    unfold zopt.
+    destruct (x_of false (r_X r0)); destruct (y_of false (r_Y r0)); cbn [option_map];
+    rewrite ?Hm;
     destruct (existsb (fun nm => Nat.ltb (List.length l) (List.length (steps_of eqbN rs nm))) (names rs));
-    destruct (x_of false (r_X r0)); destruct (y_of false (r_Y r0));
-    destruct (traverse (fun nm => tower_by_name eqbN nm tws) (names rs)); reflexivity.
+    destruct (labels_of m (names rs) tws); reflexivity.
 Qed.
 
-(* a description whose two branches normalise to the canonical members means `assemble`, with nothing lossy *)
-Theorem run_save_canonical (sd : save_d) (k1 k2 k3 k4 : fkey) :
+(* a description whose two branches normalise to the canonical members means `assemble_gen` with the label vectors of
+   its way of attaching the tower metadata (by name: `assemble`; by position: `assemble_orig`), with nothing lossy *)
+Theorem run_save_canonical_gen (sd : save_d) (m : meta_d) (k1 k2 k3 k4 : fkey) :
   sv_names sd = NKeys -> sv_is3d sd = (KFlx, 3) ->
-  normalize (sv_3d sd) = Some (canon_norm true k1 k2) -> normalize (sv_2d sd) = Some (canon_norm false k3 k4) ->
+  normalize (sv_3d sd) = Some (canon_norm true m k1 k2) -> normalize (sv_2d sd) = Some (canon_norm false m k3 k4) ->
   forall (rs : results) (tws : list tower),
   run_save eqbN str nanV zeroF E sd rs tws =
-  option_map (fun d => (d, @nil (string * string))) (assemble eqbN str nanV zeroF rs tws).
+  option_map (fun d => (d, @nil (string * string))) (assemble_gen eqbN str nanV zeroF (labels_of m) rs tws).
 Proof.
   intros H1 H2 H3 H4 rs tws. unfold run_save, mk_ctx. rewrite H1, H2. cbn [eval_names].
-  unfold assemble, assemble_gen.
+  unfold assemble_gen.
   destruct rs as [|[n0 l] rest]; [reflexivity|].
   change (names ((n0, l) :: rest)) with (n0 :: names rest).
   assert (Hl : steps_of eqbN ((n0, l) :: rest) n0 = l).
@@ -380,17 +402,34 @@ Proof.
   cbn [c_r0]. unfold run_ds.
   change (n0 :: names rest) with (names ((n0, r0 :: l0') :: rest)).
   destruct (r_3d r0).
-  - rewrite H3. rewrite (eval_norm_canon true k1 k2 _ tws n0 r0 l0' rest eq_refl).
+  - rewrite H3. rewrite (eval_norm_canon true m k1 k2 _ tws n0 r0 l0' rest eq_refl).
     match goal with |- context [existsb ?f ?l] => destruct (existsb f l) end; [reflexivity|].
     destruct (x_of true (r_X r0)); [|reflexivity]. destruct (y_of true (r_Y r0)); [|reflexivity].
     destruct (zopt true (r_Z r0)); [|reflexivity].
-    match goal with |- context [labels_by_name eqbN ?l tws] => destruct (labels_by_name eqbN l tws) end; reflexivity.
-  - rewrite H4. rewrite (eval_norm_canon false k3 k4 _ tws n0 r0 l0' rest eq_refl).
+    match goal with |- context [labels_of m ?l tws] => destruct (labels_of m l tws) end; reflexivity.
+  - rewrite H4. rewrite (eval_norm_canon false m k3 k4 _ tws n0 r0 l0' rest eq_refl).
     match goal with |- context [existsb ?f ?l] => destruct (existsb f l) end; [reflexivity|].
     destruct (x_of false (r_X r0)); [|reflexivity]. destruct (y_of false (r_Y r0)); [|reflexivity].
     destruct (zopt false (r_Z r0)); [|reflexivity].
-    match goal with |- context [labels_by_name eqbN ?l tws] => destruct (labels_by_name eqbN l tws) end; reflexivity.
+    match goal with |- context [labels_of m ?l tws] => destruct (labels_of m l tws) end; reflexivity.
 Qed.
+
+Theorem run_save_canonical (sd : save_d) (k1 k2 k3 k4 : fkey) :
+  sv_names sd = NKeys -> sv_is3d sd = (KFlx, 3) ->
+  normalize (sv_3d sd) = Some (canon_norm true MByName k1 k2) -> normalize (sv_2d sd) = Some (canon_norm false MByName k3 k4) ->
+  forall (rs : results) (tws : list tower),
+  run_save eqbN str nanV zeroF E sd rs tws =
+  option_map (fun d => (d, @nil (string * string))) (assemble eqbN str nanV zeroF rs tws).
+Proof. exact (run_save_canonical_gen sd MByName k1 k2 k3 k4). Qed.
+
+(* the description of the ORIGINAL code (labels by position) means the model of the original code *)
+Theorem run_save_positional (sd : save_d) (k1 k2 k3 k4 : fkey) :
+  sv_names sd = NKeys -> sv_is3d sd = (KFlx, 3) ->
+  normalize (sv_3d sd) = Some (canon_norm true MByPosition k1 k2) -> normalize (sv_2d sd) = Some (canon_norm false MByPosition k3 k4) ->
+  forall (rs : results) (tws : list tower),
+  run_save eqbN str nanV zeroF E sd rs tws =
+  option_map (fun d => (d, @nil (string * string))) (assemble_orig eqbN str nanV zeroF rs tws).
+Proof. exact (run_save_canonical_gen sd MByPosition k1 k2 k3 k4). Qed.
 
 (* load returns what the library reads *)
 Lemma run_load_canonical {file : Type} (read : file -> @dataset N L V F A) (ld : load_d) (f : file) :
